@@ -615,8 +615,10 @@ def _sample_dist_output_conditioned_on_postselection(
             np.abs(interferometer[postselect_modes, input_mode]) ** 2
         )
 
-        loss_probability = (
-            1.0 - non_postselect_probabilities.sum() - postselect_probabilities.sum()
+        # NOTE: For a lossless column this is zero up to rounding, possibly from below.
+        loss_probability = max(
+            1.0 - non_postselect_probabilities.sum() - postselect_probabilities.sum(),
+            0.0,
         )
 
         non_postselect_weights = non_postselect_probabilities * future_probability
@@ -698,6 +700,8 @@ def generate_lossy_and_partially_distinguishable_samples(
         connector=connector,
     )
 
+    # NOTE: Probabilities that vanish can come out as tiny negative numbers.
+    probabilities = connector.np.clip(probabilities, 0.0, None)
     probabilities /= connector.np.sum(probabilities)
 
     sample_indices = config.rng.choice(
